@@ -104,12 +104,33 @@ func (w *W) newArgs(op *scen.Op) []any {
 	if op.Named || op.Name != "" {
 		args = append(args, op.Name)
 	}
+	var opts []any
 	for i := range op.Opts {
 		if o := w.opt(&op.Opts[i]); o != nil {
-			args = append(args, o)
+			opts = append(opts, o)
 		}
 	}
-	args = append(args, w.args(op.Args)...)
+	free := w.args(op.Args)
+	switch op.Kind {
+	case "args_first": // New(name, attrs..., opts...)
+		args = append(append(args, free...), opts...)
+	case "interleaved": // options between the attribute arguments (never splitting a key from its value)
+		k := 0
+		for i := 0; i < len(free); i++ {
+			args = append(args, free[i])
+			if _, isKey := free[i].(string); isKey && i+1 < len(free) {
+				i++
+				args = append(args, free[i])
+			}
+			if k < len(opts) {
+				args = append(args, opts[k])
+				k++
+			}
+		}
+		args = append(args, opts[k:]...)
+	default:
+		args = append(append(args, opts...), free...)
+	}
 	return args
 }
 
